@@ -624,8 +624,9 @@ def run_c03(ctx):
             run["tv"], run["ti"] = [], []
             if c["outcome"] == "ok":
                 rows = {r["comp"]: r for r in c["table"]["rows"] if r["phase"] == run["phase"] and r["type"]}
-                run["tv"] = [rows[n]["vout"] for n in run["names"]]
-                run["ti"] = [rows[n]["iin"] for n in run["names"]]
+                blank = {"vout": [2, 0], "iin": [2, 0]}       # a component the table does not list for this phase
+                run["tv"] = [rows.get(n, blank)["vout"] for n in run["names"]]
+                run["ti"] = [rows.get(n, blank)["iin"] for n in run["names"]]
             runs.append(run)
         cases.append(c)
         return c
